@@ -13,6 +13,9 @@
      behaviour of evaluating an expression, with its value or the way it ended.  Two functions are not asked of the
      world: the constructor `init` of a struct class builds the instance (lower_constructors: one StructInit of the
      parameters), and Str.concat concatenates (theories/C04rt proves that of the runtime library).
+   * a lambda expression yields the function value `VClo (FLam l) context`: l names its synthetic function, the
+     context is the record of the captured values (the i31 zero when nothing is captured).  Calling it asks the
+     world like any other call; that the synthetic function behaves like the body is Lower.lambda_fn's theorem.
    * a call passes the receiver as first argument: the value of the class for a class function (`EClass`, the i31
      zero at run time), the object for a method; a function value is called with its context first.
    * ORDER (6.15): operands left to right; `&&` / `||` evaluate the right operand only when the left one does not
@@ -54,7 +57,7 @@ Definition call_named (w : world) (f : fname) (vs : list value) (tr : trace) : c
   match f with
   | FInit _ => match vs with _ :: fields => CRet (VStruct fields) tr | [] => CFail FStuck end
   | FConcat => match vs with [VStr a; VStr b] => CRet (VStr (a ++ b)) tr | _ => CFail FStuck end
-  | FUser _ =>
+  | FUser _ | FLam _ =>
       match w tr f vs with
       | Some v => CRet v ((f, vs) :: tr)
       | None => CFail (FAbort ((f, vs) :: tr))
@@ -68,9 +71,24 @@ Definition apply_value (w : world) (fv : value) (vs : list value) (tr : trace) :
   | _ => CFail FStuck
   end.
 
+Fixpoint str_eqb (a b : list N) : bool :=
+  match a, b with
+  | [], [] => true
+  | x :: r, y :: r' => N.eqb x y && str_eqb r r'
+  | _, _ => false
+  end.
+
+(* ints (and booleans, unit): the instruction of the target; two strings: == and != compare the characters (both back
+   ends select the string comparison of the runtime library for operands of type Str; theories/C04rt) *)
 Definition binop_sem (op : binop) (a b : value) (tr : trace) : cres :=
   match a, b with
   | VInt x, VInt y => match rt_binop op x y with Val z => CRet (VInt z) tr | TrapArith => CFail (FTrap tr) end
+  | VStr x, VStr y =>
+      match op with
+      | EQ => CRet (VInt (b2z (str_eqb x y))) tr
+      | NE => CRet (VInt (b2z (negb (str_eqb x y)))) tr
+      | _ => CFail FStuck
+      end
   | _, _ => CFail FStuck
   end.
 
@@ -94,6 +112,28 @@ Definition field_sem (a : value) (i : nat) : option value :=
 Notation senv := (name -> option value) (only parsing).
 Definition upd (r : name -> option value) (x : name) (w : option value) : name -> option value :=
   fun y => if N.eqb y x then w else r y.
+
+(* `let (p0, .., pm) = v`: element i takes field i *)
+Fixpoint bind_els (r : name -> option value) (els : list (option name)) (vs : list value) : option (name -> option value) :=
+  match els with
+  | [] => Some r
+  | el :: t =>
+      match vs with
+      | [] => None
+      | v :: vt => bind_els (match el with Some x => upd r x (Some v) | None => r end) t vt
+      end
+  end.
+Definition bind_tuple (r : name -> option value) (els : list (option name)) (v : value) : option (name -> option value) :=
+  match v with VStruct vs => bind_els r els vs | _ => None end.
+
+(* the values of the captured variables, in the order given *)
+Fixpoint lookups (r : name -> option value) (xs : list name) : option (list value) :=
+  match xs with
+  | [] => Some []
+  | x :: t => match r x, lookups r t with Some v, Some vs => Some (v :: vs) | _, _ => None end
+  end.
+(* the context of a function value made from a lambda: nothing captured = the i31 zero, else a record of the values *)
+Definition context_of (vs : list value) : value := match vs with [] => VInt 0 | _ => VStruct vs end.
 
 Inductive sres := SVal (v : value) (tr : trace) | SFail (f : fail).
 Inductive lres := LVal (vs : list value) (tr : trace) | LFail (f : fail).
@@ -209,6 +249,13 @@ Section Sem.
         | o => o
         end
     | EBlock b => seval_blk r b tr
+    | ELambda l caps _ _ =>
+        (* a function value: the synthetic function of this lambda and the captured values (the body runs when the
+           value is called: answered by the world here, see Lower.lambda_fn for the body) *)
+        match lookups r caps with
+        | Some vs => SVal (VClo (FLam l) (context_of vs)) tr
+        | None => SFail FStuck
+        end
     end
   with seval_args (r : name -> option value) (es : exprs) (tr : trace) {struct es} : lres :=
     match es with
@@ -230,6 +277,15 @@ Section Sem.
     | BLet x e b =>
         match seval r e tr with
         | SVal v tr1 => seval_blk (match x with Some x => upd r x (Some v) | None => r end) b tr1
+        | o => o
+        end
+    | BLetT _ els e b =>
+        match seval r e tr with
+        | SVal v tr1 =>
+            match bind_tuple r els v with
+            | Some r' => seval_blk r' b tr1
+            | None => SFail FStuck
+            end
         | o => o
         end
     | BExp e b =>
